@@ -7,8 +7,8 @@ Open Scope N_scope.
 (* build.rs read_fork: default row for every byte *)
 Definition invalid_row (c : N) : oprow :=
   mkrow c
-    ("Invalid" ++ String (hex_upper_digit (c / 16)) (String (hex_lower_digit (c mod 16)) EmptyString))
-    ("invalid_" ++ hex_byte c)
+    ("Invalid" +++ String (hex_upper_digit (c / 16)) (String (hex_lower_digit (c mod 16)) EmptyString))
+    ("invalid_" +++ hex_byte c)
     0 0 0 true false false.
 
 (* read_fork: `if idx < len-1 && op.code >= input[idx+1].code` -> OutOfOrder(next name) *)
@@ -75,7 +75,7 @@ Section WithTable.
 
   (* Op::<()>::push(sz): the hand written match 1..=32 on variants Push1..Push32 *)
   Definition push (sz : N) : option oprow :=
-    if (1 <=? sz) && (sz <=? 32) then find_name ("Push" ++ dec_of_N sz) else None.
+    if (1 <=? sz) && (sz <=? 32) then find_name ("Push" +++ dec_of_N sz) else None.
 
   (* Op::<()>::push_for(n : u128) *)
   Definition push_for (n : N) : res oprow :=
@@ -94,7 +94,7 @@ Section WithTable.
 
   (* Op::<()>::with(immediate): only Push1..Push32 (matched by variant name) *)
   Definition is_push_variant (r : oprow) : bool :=
-    existsb (fun k => String.eqb (r_name r) ("Push" ++ dec_of_N k)) (N_range 1 32).
+    existsb (fun k => String.eqb (r_name r) ("Push" +++ dec_of_N k)) (N_range 1 32).
 End WithTable.
 
 (* ---------- canonical renderings used by the correspondence check ---------- *)
@@ -113,15 +113,15 @@ Definition hex_or_dash (bs : list N) : string :=
 
 Definition run_row (t : list oprow) (c : N) : string :=
   let r := from_u8 t c in
-  show_row r ++ "|size=" ++ dec_of_N (size r) ++ " mnem2=" ++ r_mnem r
-  ++ " fromstr=" ++ match from_str t (display r) with Some x => dec_of_N (to_u8 x) | None => "none" end
-  ++ " new=" ++ show_bool (match op_new r with Some _ => true | None => false end).
+  show_row r +++ "|size=" +++ dec_of_N (size r) +++ " mnem2=" +++ r_mnem r
+  +++ " fromstr=" +++ match from_str t (display r) with Some x => dec_of_N (to_u8 x) | None => "none" end
+  +++ " new=" +++ show_bool (match op_new r with Some _ => true | None => false end).
 
 Definition run_rows (t : list oprow) : string := join ";" (map (run_row t) (N_range 0 256)).
 
 Definition run_from_slice (t : list oprow) (bs : list N) : string :=
-  show_res (fun p : oprow * list N => r_name (fst p) ++ " " ++ hex_or_dash (snd p)
-                                      ++ " size=" ++ dec_of_N (size (fst p)))
+  show_res (fun p : oprow * list N => r_name (fst p) +++ " " +++ hex_or_dash (snd p)
+                                      +++ " size=" +++ dec_of_N (size (fst p)))
            (from_slice t bs).
 
 Definition run_push (t : list oprow) (sz : N) : string := show_opt_row (push t sz).
